@@ -6,7 +6,7 @@
      - its deepcopy (Store.deepcopy: fresh, memoised),
      - every assignment it then performs (always through the pointers of its own copy - there is no guard in the model
        that would keep a write away from an input location; the theorems show the pointers never lead there):
-         DFXP   caption.layout_info / node.layout_info := _relativize_and_fit_to_screen(..)
+         DFXP   language layout_info := as_percentage_of(..); caption / node layout_info := _relativize_and_fit_to_screen(..)
          SAMI   set / language / caption / node layout_info := ..;  rules.update(margins) in the style blocks
          Legacy merge_concurrent_captions (set_captions with new lists / Caption objects), caption.style.update(region)
          Single deepcopy, merge, every layout_info := default_positioning, style.pop('text-align'); then DFXP
@@ -119,6 +119,22 @@ Definition tr_code (o : wopts) (c : option Z) : result (option Z) :=
       else Ok None
   end.
 
+(* DFXPWriter, language level (fix 8dfe05b): `if lang_layout and self.relativize: set_layout_info(lang,
+   lang_layout.as_percentage_of(..))` - relativized only, never fitted; nothing is assigned otherwise *)
+Definition tr_code_lang (o : wopts) (c : option Z) : result (option Z) :=
+  match c with
+  | None => Ok None
+  | Some c =>
+      if flag fT c && wo_rel o then
+        if flag fA c && negb (wo_dims o) then Err ERelativization else Ok (Some (relativized c))
+      else Ok None
+  end.
+
+(* a layout_info slot of the traversal: (language-level slot of the DFXP writers?, code it holds) *)
+Definition scode := (bool * option Z)%type.
+Definition tr_scode (o : wopts) (sc : scode) : result (option Z) :=
+  if fst sc then tr_code_lang o (snd sc) else tr_code o (snd sc).
+
 (* truthiness of the layout the slot holds AFTER the assignment (what the renderer then sees) *)
 Definition truthy_after (o : wopts) (c : option Z) : bool :=
   match c with
@@ -213,29 +229,35 @@ Definition legacy_langs (o : wopts) (t : tree) : list (tree * tree) :=
 
 (* ---- the plan: everything a write decides, as a function of the snapshot of its copy ---------------------------- *)
 (* slot actions in traversal order (one per layout_info slot the writer assigns), stopping at the first error *)
-Fixpoint plan_slots (o : wopts) (codes : list (option Z)) : list (option Z) * option err :=
+Fixpoint plan_slots (o : wopts) (codes : list scode) : list (option Z) * option err :=
   match codes with
   | [] => ([], None)
   | c :: t =>
-      match tr_code o c with
+      match tr_scode o c with
       | Err e => ([], Some e)
       | Ok a => let (r, e) := plan_slots o t in (a :: r, e)
       end
   end.
 
-Definition cap_codes (cap : tree) : list (option Z) :=
-  tcode (tfield cap 5) :: map (fun n => tcode (tfield n 4)) (cap_nodes_t cap).
-
-Definition dfxp_codes (langs : list (tree * tree)) : list (option Z) :=
-  flat_map (fun kv => flat_map cap_codes (telems (snd kv))) langs.
+Definition cap_codes (cap : tree) : list scode :=
+  (false, tcode (tfield cap 5)) :: map (fun n => (false, tcode (tfield n 4))) (cap_nodes_t cap).
 
 (* CaptionSet.get_layout_info(lang): `if caption_list: return caption_list.layout_info` - an EMPTY language reads as None *)
 Definition lang_code (cl : tree) : option Z :=
   match telems cl with [] => None | _ => tcode (tfield cl 1) end.
 
-Definition sami_codes (t : tree) : list (option Z) :=
-  tcode (tfield t 3) ::
-  flat_map (fun kv => lang_code (snd kv) :: flat_map cap_codes (telems (snd kv))) (set_langs_t t).
+(* DFXP: per language the language-level slot (relativized only), then every caption and node *)
+Definition dfxp_codes (langs : list (tree * tree)) : list scode :=
+  flat_map (fun kv => (true, lang_code (snd kv)) :: flat_map cap_codes (telems (snd kv))) langs.
+
+(* SinglePositioning: the DFXP phase sees a copy in which every slot (of a non-empty language) holds default_positioning *)
+Definition single_codes (pos : option Z) (langs : list (tree * tree)) : list scode :=
+  flat_map (fun kv => (true, match telems (snd kv) with [] => None | _ => pos end)
+                      :: map (fun sc => (false, pos)) (flat_map cap_codes (telems (snd kv)))) langs.
+
+Definition sami_codes (t : tree) : list scode :=
+  (false, tcode (tfield t 3)) ::
+  flat_map (fun kv => (false, lang_code (snd kv)) :: flat_map cap_codes (telems (snd kv))) (set_langs_t t).
 
 (* SAMI renders caption by caption, interleaved with the layout assignments: an error in caption j leaves open_span
    as captions 1..j-1 set it.  ncap_before_err = number of captions fully processed before the error. *)
@@ -264,13 +286,13 @@ Fixpoint sami_langs_before (o : wopts) (langs : list (tree * tree)) : list (list
 
 Definition time_ms (t : tree) : tree := match t with TInt z => TInt (z / 1000) | x => x end.
 
-(* SAMI: per language last_time := None; per caption: blank sync when last_time is truthy and differs from the start *)
+(* SAMI: per language last_time := None; per caption: blank sync when last_time is not None and differs from the start *)
 Fixpoint sami_lang_tokens (o : wopts) (open : bool) (last : tree) (caps : list tree) : bool * tree * list Z :=
   match caps with
   | [] => (open, last, [])
   | c :: t =>
       let time := time_ms (tfield c 1) in
-      let blank := if is_true last && negb (tkey_eqb time last) then [3] else [] in
+      let blank := if negb (tkey_eqb last TNone) && negb (tkey_eqb time last) then [3] else [] in
       let (o1, a) := nodes_tokens o 5 None open (cap_nodes_t c) in
       let '(o2, l2, b) := sami_lang_tokens o o1 (time_ms (tfield c 2)) t in
       (o2, l2, blank ++ a ++ b)
@@ -316,8 +338,7 @@ Definition make_plan (k : Z) (o : wopts) (open : bool) (last : tree) (t : tree) 
   else if k =? W_SINGLE then
     (* the DFXP part sees a copy in which every slot holds default_positioning *)
     let langs := dfxp_langs o t in
-    let n := length (dfxp_codes langs) in
-    let (sl, e) := plan_slots o (repeat (wo_pos o) n) in
+    let (sl, e) := plan_slots o (single_codes (wo_pos o) langs) in
     match e with
     | Some _ => mkPlan sl e open last []
     | None =>
@@ -358,7 +379,7 @@ Definition cap_slots (st : store) (cap : val) : list slot :=
   (cap, 5, false) :: map (fun n => (n, 4, false)) (elems st (field st cap (VInt 3))).
 
 Definition dfxp_slots (st : store) (langs : list (val * val)) : list slot :=
-  flat_map (fun kv => flat_map (cap_slots st) (elems st (snd kv))) langs.
+  flat_map (fun kv => (snd kv, 1, false) :: flat_map (cap_slots st) (elems st (snd kv))) langs.
 
 (* set_layout_info(lang, f(get_layout_info(lang))): for an empty language get_layout_info is None, so None is assigned *)
 Definition sami_slots (st : store) (s : val) : list slot :=
